@@ -7,7 +7,7 @@ HOOK_COMMITS = ["48c2537", "2e3b999", "a02c7c8", "63b8343"]
 CHECKS = {
  "C01": dict(level="model_checking", design="DESIGN.md 5 (C01)",
    text="Every program of the A-sc/LOCK/WAIT/CHAN/ARC families up to the stated size is explored exhaustively on a naive SC interleaving machine (all reachable states) and on real loom (all iterations, unbounded); every reference outcome must be produced by some loom iteration and reference deadlocks must be reported.",
-   note="Trusted: the SC machine's step semantics (validated against hand-computed sentinels and cross-checked with the RC11 engine on SeqCst-only programs); programs are bounded (2-4 threads, <=6 ops).",
+   note="Trusted: the SC machine's step semantics (validated against hand-computed sentinels and cross-checked with the RC11 engine on SeqCst-only programs); programs are bounded (2-4 threads, <=6 ops). Known findings D20 and D25 (DESIGN.md 10.2) are listed per (program, outcome) in known_findings/C01.txt.",
    technique="exhaustive program enumeration + explicit-state reference search vs. stateless exploration of the real code"),
  "C02": dict(level="model_checking", design="DESIGN.md 5 (C02), appendix B",
    text="Every litmus program up to the size level with every ordering combination: all RC11-consistent executions (po U rf acyclic) are enumerated by an axiomatic reference and each outcome must be produced by some loom iteration.",
@@ -68,7 +68,7 @@ CHECKS.update({
    technique="exhaustive program enumeration; streaming trie/DFS-order oracle over all decision paths"),
  "C15": dict(level="model_checking", design="DESIGN.md 5 (C15)",
    text="Every program of the level is explored with preemption_bound 0..6, #ops and unbounded; every iteration's preemptions are recounted from the raw schedule branches (switch away from a thread that is neither disabled nor yielded) and must not exceed the bound; result sets must be subsets of the unbounded one, monotone in n, and equal to it for n >= #ops.",
-   note="loom's own counter may exceed the recount (it also counts picking a non-default thread after a block); only the recount is compared with the bound.",
+   note="loom's own counter may exceed the recount (it also counts picking a non-default thread after a block); only the recount is compared with the bound. Known finding D25 (DESIGN.md 10.2): on programs that call yield_now outside a spin loop the unbounded run misses results that bounded runs find; the failing (program, bound, outcome) triples are listed in known_findings/C15.txt.",
    technique="exhaustive program x bound enumeration; per-iteration recount + result-set inclusion oracles"),
  "C16": dict(level="model_checking", design="DESIGN.md 5 (C16)",
    text="K diverse programs: every ordered pair back to back in one process and every unordered pair on two OS threads must reproduce each program's fresh-process iteration sequence; every iteration of every program is replayed alone in a fresh process from the checkpoint stored before it and must equal the same iteration inside the full run; the execution-state fingerprint (hook H2) and the main thread id are identical at the start of every iteration.",
